@@ -67,29 +67,18 @@ theorem collect_mem (inProps : List Text) : ∀ (ts : List OurType) (acc : Defs)
     intro acc dup defs h hn
     simp only [collect] at h
     cases ht : typeDefinitions inProps t with
-    | error c => simp [ht] at h
+    | error c =>
+      simp only [ht] at h
+      split at h
+      · exact absurd h (collect_true_ne inProps _ _ _)
+      · cases h
     | ok ds =>
       simp only [ht] at h
       cases ha : addDefs acc ds with
       | none =>
         simp only [ha] at h
         exfalso
-        have : ∀ (ts : List OurType) (acc : Defs) (defs : Defs),
-            collect inProps ts acc true ≠ .ok (defs, false) := by
-          intro ts
-          induction ts with
-          | nil => intro acc defs h; simp [collect] at h
-          | cons t ts ih2 =>
-            intro acc defs h
-            simp only [collect] at h
-            cases ht2 : typeDefinitions inProps t with
-            | error c => simp [ht2] at h
-            | ok ds2 =>
-              simp only [ht2] at h
-              cases ha2 : addDefs acc ds2 with
-              | none => simp only [ha2] at h; exact ih2 _ _ h
-              | some d2 => simp only [ha2] at h; exact ih2 _ _ h
-        exact this _ _ _ h
+        exact collect_true_ne inProps _ _ _ h
       | some acc' =>
         simp only [ha] at h
         have hacc := addDefs_some _ _ _ ha
@@ -173,32 +162,17 @@ theorem generate_leaf_lookup (mm : MM) (defs : Defs) (h : generate mm = .ok defs
     (hc : OurType.cls c ∈ mm.types) (hleaf : c.cdesc = []) (hconc : c.abstract = false) :
     ∃ s, concreteDefinition c = .ok (c.mt, s) ∧ lookup c.mt defs = some s := by
   -- `generate` succeeded, hence `classDefinitions` succeeded on `c`
-  have hok : ∃ ds, typeDefinitions (classesInProperties mm) (.cls c) = .ok ds := by
+  have hok0 : ∃ ds, typeDefinitions (classesInProperties mm) (.cls c) = .ok ds := by
     unfold generate at h
     cases hcl : collect (classesInProperties mm) mm.types [] false with
     | crash e => simp [hcl] at h
     | err => simp [hcl] at h
     | ok p =>
-      have : ∀ (ts : List OurType) (acc : Defs) (dup : Bool) (r : Defs × Bool),
-          collect (classesInProperties mm) ts acc dup = .ok r → ∀ t ∈ ts,
-            ∃ ds, typeDefinitions (classesInProperties mm) t = .ok ds := by
-        intro ts
-        induction ts with
-        | nil => intro _ _ _ _ t ht; cases ht
-        | cons t ts ih =>
-          intro acc dup r hr t' ht'
-          simp only [collect] at hr
-          cases htd : typeDefinitions (classesInProperties mm) t with
-          | error e => simp [htd] at hr
-          | ok ds =>
-            simp only [htd] at hr
-            rcases List.mem_cons.mp ht' with rfl | ht''
-            · exact ⟨ds, htd⟩
-            · cases ha : addDefs acc ds with
-              | none => simp only [ha] at hr; exact ih _ _ _ hr t' ht''
-              | some a' => simp only [ha] at hr; exact ih _ _ _ hr t' ht''
-      exact this _ _ _ _ hcl _ hc
-  obtain ⟨ds, hds⟩ := hok
+      obtain ⟨d0, dup⟩ := p
+      cases dup with
+      | true => simp [hcl] at h
+      | false => exact collect_all_ok _ _ _ _ _ hcl _ hc
+  obtain ⟨ds, hds⟩ := hok0
   have hds' := hds
   simp only [typeDefinitions, classDefinitions, hleaf, List.isEmpty_nil, Bool.not_true,
     Bool.false_eq_true, if_false, hconc] at hds'
@@ -216,32 +190,17 @@ theorem generate_inheritable_lookup (mm : MM) (defs : Defs) (h : generate mm = .
     (hc : OurType.cls c ∈ mm.types) (hdesc : c.cdesc ≠ []) :
     ∃ k s, inheritableDefinition c = .ok (k, s) ∧
       k = (if c.abstract then c.mt else sfx c.mt "_abstract") ∧ lookup k defs = some s := by
-  have hok : ∃ ds, typeDefinitions (classesInProperties mm) (.cls c) = .ok ds := by
+  have hok0 : ∃ ds, typeDefinitions (classesInProperties mm) (.cls c) = .ok ds := by
     unfold generate at h
     cases hcl : collect (classesInProperties mm) mm.types [] false with
     | crash e => simp [hcl] at h
     | err => simp [hcl] at h
     | ok p =>
-      have : ∀ (ts : List OurType) (acc : Defs) (dup : Bool) (r : Defs × Bool),
-          collect (classesInProperties mm) ts acc dup = .ok r → ∀ t ∈ ts,
-            ∃ ds, typeDefinitions (classesInProperties mm) t = .ok ds := by
-        intro ts
-        induction ts with
-        | nil => intro _ _ _ _ t ht; cases ht
-        | cons t ts ih =>
-          intro acc dup r hr t' ht'
-          simp only [collect] at hr
-          cases htd : typeDefinitions (classesInProperties mm) t with
-          | error e => simp [htd] at hr
-          | ok ds =>
-            simp only [htd] at hr
-            rcases List.mem_cons.mp ht' with rfl | ht''
-            · exact ⟨ds, htd⟩
-            · cases ha : addDefs acc ds with
-              | none => simp only [ha] at hr; exact ih _ _ _ hr t' ht''
-              | some a' => simp only [ha] at hr; exact ih _ _ _ hr t' ht''
-      exact this _ _ _ _ hcl _ hc
-  obtain ⟨ds, hds⟩ := hok
+      obtain ⟨d0, dup⟩ := p
+      cases dup with
+      | true => simp [hcl] at h
+      | false => exact collect_all_ok _ _ _ _ _ hcl _ hc
+  obtain ⟨ds, hds⟩ := hok0
   have hne : c.cdesc.isEmpty = false := by cases hcc : c.cdesc <;> simp_all
   have hds' := hds
   simp only [typeDefinitions, classDefinitions, hne, Bool.not_false, if_true] at hds'
